@@ -71,7 +71,36 @@ def usize(lo=0, hi=ISIZE_MAX):
 def set_len(c, st, loc, new_len, lin=None):
     """strong update of the len leaf of the container at loc"""
     lloc = (loc[0], loc[1] + ("len",))
+    if lin is not None and lin.terms.get(lloc) == 1 and len(lin.terms) >= 1:
+        # invertible update  len := len + delta : rewrite every constraint over the old value (old = new - delta)
+        delta = lin - LinForm.var(lloc)
+        if lloc not in delta.terms:
+            repl = LinForm.var(lloc) - delta
+            cons = st.cons
+            new_le = [x.subst(lloc, repl) if lloc in x.terms else x for x in cons.le]
+            new_eq = [x.subst(lloc, repl) if lloc in x.terms else x for x in cons.eq]
+            from lin import Cons
+            nc = Cons()
+            for x in new_le:
+                nc.add_le(x)
+            for x in new_eq:
+                nc.add_eq(x)
+            st.cons = nc
+            st.defs = {k: d for k, d in st.defs.items() if k != lloc and not any(v == lloc for v in _defvars_of(d))}
+            st.kill_guards(lloc[0], lloc[1])
+            st.set_leaf(lloc, new_len)
+            return
     c.I.write_loc(st, lloc, new_len, lin)
+
+
+def _defvars_of(d):
+    out = []
+    for x in d[1:]:
+        if isinstance(x, LinForm):
+            out.extend(x.terms.keys())
+        elif isinstance(x, tuple) and len(x) == 2 and isinstance(x[1], tuple) and isinstance(x[0], tuple):
+            out.append(x)
+    return out
 
 
 def weak_elem(c, st, loc, v):
